@@ -90,11 +90,12 @@ def _create_h2(data, meta) -> Histogram2D:
 
     shape = Histogram2D(binnings).shape
 
-    # TODO: Are the shapes in correct order?
-    frequencies = data[:, 1].reshape([b + 2 for b in shape])
+    # The x index runs fastest in the file
+    file_shape = [shape[1] + 2, shape[0] + 2]
+    frequencies = data[:, 1].reshape(file_shape).T
     frequencies = frequencies[1:-1, 1:-1]
 
-    errors2 = data[:, 2].reshape([b + 2 for b in shape])
+    errors2 = data[:, 2].reshape(file_shape).T
     errors2 = errors2[1:-1, 1:-1]
 
     hist = Histogram2D(
